@@ -153,6 +153,11 @@ func BuildSimple(dir string, r *kit.Repo) (string, error) {
 		return "", err
 	}
 	p := ShardName(dir, r.Name, index.IndexFormatVersion, 0)
+	if _, err := os.Stat(p); err == nil {
+		// a repository of the same name (another tenant) already has this file name:
+		// name the shard by id, as multi-tenant zoekt does
+		p = ShardName(dir, fmt.Sprintf("%s_id%d", r.Name, r.ID), index.IndexFormatVersion, 0)
+	}
 	return p, WriteBuilder(b, p)
 }
 
